@@ -415,23 +415,29 @@ class Norm:
             return a + b if op is ast.Add else (a - b if op is ast.Sub else a * b)
         if op is ast.Div:
             a, b = self._p(n.left, d), self._p(n.right, d)
-            try:
-                return a * b.inv()
-            except (NotMonomial, ZeroDivisionError):
-                return a * self._mk("inv(%s)" % b, "inv", n.right, {"den": b})
+            return a * self._inv(b, n.right)
         if op is ast.Pow:
             a = self._p(n.left, d)
             e = self._p(n.right, d)
             if e.is_const() and e.const_value().denominator == 1 and abs(e.const_value()) <= 12:
                 k = int(e.const_value())
-                try:
+                if k >= 0:
                     return a ** k
-                except (NotMonomial, ZeroDivisionError):
-                    return self._mk("inv(%s)" % (a ** (-k)), "inv", n, {"den": a ** (-k)})
+                return self._inv(a ** (-k), n)
             return self._mk("pow(%s,%s)" % (a, e), "pow", n, {"base": a, "exp": e})
         sym = _BIN.get(op, op.__name__)
         a, b = self._p(n.left, d), self._p(n.right, d)
         return self._mk("(%s %s %s)" % (a, sym, b), "binop", n, {"op": sym, "left": a, "right": b})
+
+    def _inv(self, b, node):
+        """1/b in normal form: the monomial content is inverted exactly, the primitive part becomes an atom."""
+        try:
+            return b.inv()
+        except ZeroDivisionError:
+            return self._mk("inv(0)", "inv", node, {"den": b})
+        except NotMonomial:
+            mono, prim = b.content()
+            return mono.inv() * self._mk("inv(%s)" % prim, "inv", node, {"den": prim})
 
     def _n_UnaryOp(self, n, d):
         if isinstance(n.op, ast.USub):
